@@ -688,6 +688,8 @@ func init() {
 			{Kids: kid("A", &BatchSpec{})},
 			{DelKids: []string{"A"}},
 			{Ops: ops("S:b"), Kids: kid("A", &BatchSpec{Ops: ops("D:a")})},
+			// a batch that only touches a grandchild: child A itself gets no segment
+			{Kids: kid("A", &BatchSpec{Kids: kid("X", &BatchSpec{Ops: ops("S:a")})})},
 		}
 		sp.Configs = []Config{
 			{Backing: "store", MinMergePct: 100, Concern: 0},
